@@ -206,6 +206,17 @@ def one_selection(res: CaseResult, P: Dict[str, Any], M: Model, b: prog.Built, r
 
 
 def run_case(case: Dict[str, Any]) -> CaseResult:
+    from ..env import process_env
+
+    # environment axis: tawazi's logging on with a sink at DEBUG level while selecting and running
+    with process_env(log_debug=bool(case.get("log_debug"))):
+        res = _run_case(case)
+    if case.get("log_debug"):
+        res.cls("debug-logging-on")
+    return res
+
+
+def _run_case(case: Dict[str, Any]) -> CaseResult:
     res = CaseResult()
     P = case["prog"]
     M = Model({"prog": P, "mc": case.get("mc", 2)})
@@ -276,10 +287,12 @@ def cases(draw: Any, tier: str) -> Dict[str, Any]:
     P = draw(gen.flat_prog(min_sites=3, max_sites=4 if exhaustive else 8, max_deps=3, resources=gen.RES, reuse=not exhaustive,
                            n_setup=draw(st.integers(0, 2)), mark_roots=False, prio_range=(-1, 2),
                            index_rate=0.3, dep_kinds=("pos", "kw"), short_name_rate=0.2, ret_index_rate=0.4,
-                           many_args_rate=0.0 if exhaustive else 0.04))
+                           many_args_rate=0.0 if exhaustive else 0.04, same_name_rate=0.3))
     sites = [s["site"] for s in P["body"]]
     case: Dict[str, Any] = {"prog": P, "mc": draw(st.integers(1, 3)), "pre_setup": draw(st.booleans()),
                             "async": draw(st.sampled_from([False, False, True]))}
+    if not exhaustive and draw(st.integers(0, 7)) == 0:
+        case["log_debug"] = True
     if exhaustive:
         case["exhaustive"] = True
         return case
